@@ -25,8 +25,9 @@ open RoleTree EnvM Failure
 /-! ## the model is about the code as it is now (go/ast facts regenerated on every run) -/
 
 def Failure.Kind.mesos? : Kind → Option String
-  | .FAILED => some "TASK_FAILED" | .LOST => some "TASK_LOST" | .KILLED => some "TASK_KILLED"
-  | .TERROR => some "TASK_ERROR" | .FINISHED => some "TASK_FINISHED" | _ => none
+  | .FAILED | .RFAILED => some "TASK_FAILED" | .LOST | .RLOST | .RAGENT => some "TASK_LOST"
+  | .KILLED | .RKILLED => some "TASK_KILLED" | .TERROR | .RTERROR => some "TASK_ERROR"
+  | .FINISHED | .RFINISHED => some "TASK_FINISHED" | _ => none
 
 /-- `effect` for a terminal Mesos status IS the case table of task.Manager.handleMessage
     (state literal) and updateTaskStatus (INACTIVE); the ERROR rows are the ones guarded by
@@ -35,6 +36,20 @@ theorem C03_status_effect_is_code (k : Kind) (n : String) (st : St) (h : k.mesos
     (∃ row ∈ Gen.C03.statusState, row.1 = n ∧ TState.parse? row.2.1 = (effect k st).st ∧ row.2.2 = k.hard) ∧
     n ∈ Gen.C03.inactiveOn ∧ (effect k st).su = some .INACTIVE ∧ (effect k st).stop = false := by
   cases k <;> simp [Kind.mesos?] at h <;> subst h <;> cases st <;> decide
+
+/-- A terminal state learnt ONLY through the master's reconciliation answer after a
+    re-subscription (the task died while the core was cut off) has the effect of the same
+    state delivered directly — because that IS the shape of handleMessage(TaskStatusMessage):
+    the `switch mesosState` is reached by every status update (straight-line code before it)
+    and no condition on the way to `updateTaskState` mentions the update's reason; and
+    `updateTaskStatus` (INACTIVE) is reached by every update about a task that is in the
+    roster (only the KILL of tasks NOT in the roster looks at the reason). Moving the
+    handling of reconciliation updates into a branch of its own makes this theorem false. -/
+theorem C03_reconciled_effect_is_code (k : Kind) (st : St) (h : k.viaReconciliation = true) :
+    Gen.C03.statusStateReasonBlind = true ∧ Gen.C03.statusUpdateReachesRosterTasks = true ∧
+    k.direct.viaReconciliation = false ∧ k.mesos?.isSome = true ∧ k.mesos? = k.direct.mesos? ∧
+    effect k st = effect k.direct st ∧ k.hard = k.direct.hard := by
+  cases k <;> simp [Kind.viaReconciliation] at h <;> cases st <;> decide
 
 /-- `effect` for a lost executor / agent IS HandleExecutorFailed / HandleAgentFailed. -/
 theorem C03_lost_effect_is_code (st : St) :
@@ -701,6 +716,56 @@ theorem C03_critical_to_error_code : C03_critical_to_error_full codeCfg := by
   intro s k vs ls hlive hk hcrit hv hprem hq
   exact ((C03_critical_to_error_buffered codeCfg rfl rfl s k vs hlive hk hcrit).2.1 ls hv).2 hprem hq
 
+/-! ## C03: the task died while the core was cut off from the master -/
+
+theorem effect_direct (k : Kind) (st : St) : effect k.direct st = effect k st := by
+  cases k <;> rfl
+
+/-- For EVERY system, kind and victim list: a failure learnt through reconciliation IS the
+    directly delivered one (same tree, watcher, channel, queues …) — so everything proved
+    about `fail` (all the theorems of this file quantify over every `Kind`) holds for it, and
+    the premises `drives` / `quiet` / `hard` are the direct kind's. -/
+theorem C03_reconciled_as_direct (c : Cfg) (k : Kind) (s : Sys) (vs : List (List Nat × Bool)) :
+    fail c k s vs = fail c k.direct s vs ∧
+    (∀ st, k.drives st = k.direct.drives st ∧ k.quiet st = k.direct.quiet st) ∧ k.hard = k.direct.hard := by
+  refine ⟨?_, fun st => by simp [Kind.drives, Kind.quiet, effect_direct], by cases k <;> rfl⟩
+  induction vs generalizing s with
+  | nil => rfl
+  | cons v vs ih =>
+    obtain ⟨p, r⟩ := v
+    have h1 : failOne c k s p r = failOne c k.direct s p r := by
+      unfold failOne
+      simp only [effect_direct]
+    simp only [fail, h1]
+    exact ih _
+
+/-- A terminal state other than TASK_FINISHED learnt through reconciliation drives, whatever
+    the environment's state. -/
+theorem reconciled_hard_drives (k : Kind) (st : St) (h : k.viaReconciliation = true) (hk : k.hard = true) :
+    k.drives st = true := by
+  cases k <;> simp [Kind.viaReconciliation, Kind.hard] at h hk <;> rfl
+
+/-- **Critical task dead while the core was cut off ⇒ ERROR.** For every live system, every
+    terminal state except TASK_FINISHED reported by the master's reconciliation answer
+    (TASK_FAILED / LOST / KILLED / ERROR; a whole agent's tasks LOST) about any set of tasks of
+    which one is critical, every watcher position and every valid run of internal steps (with
+    the premise of `C03_critical_to_error_full` about a stale value in the watcher's channel):
+    at most `budget` (≤ budget before + 3 per victim + 2) steps follow, and when none is
+    enabled any more the environment is in ERROR; such a run exists. -/
+theorem C03_reconciled_critical_to_error (s : Sys) (k : Kind) (vs : List (List Nat × Bool))
+    (hrec : k.viaReconciliation = true) (hk : k.hard = true)
+    (hlive : Live s) (hcrit : ∃ p r, (p, r) ∈ vs ∧ critLeafAt s.f p = true) :
+    let s1 := fail codeCfg k s vs
+    (∀ ls, validRun codeCfg s1 ls = true → ls.length ≤ budget s + 3 * vs.length + 2 ∧
+      ((s.chan = none ∨ rootHolds codeCfg s1 ls = true) → quiescent (irun codeCfg s1 ls) = true →
+        (irun codeCfg s1 ls).env.st = .ERROR)) ∧
+    (∃ ls, validRun codeCfg s1 ls = true ∧ quiescent (irun codeCfg s1 ls) = true) := by
+  obtain ⟨hb, h, hex⟩ := C03_critical_to_error_buffered codeCfg rfl rfl s k vs hlive
+    (reconciled_hard_drives k s.env.st hrec hk) hcrit
+  refine ⟨fun ls hv => ?_, hex⟩
+  obtain ⟨h1, h2⟩ := h ls hv
+  exact ⟨by omega, h2⟩
+
 /-- ERROR is absorbing for the internal steps (nothing in flight is RECOVER). -/
 theorem C03_error_stable (c : Cfg) (s : Sys) (ls : List Label) (he : s.env.st = .ERROR) (hnr : NoRecover s)
     (hv : validRun c s ls = true) : (irun c s ls).env.st = .ERROR := by
@@ -894,6 +959,14 @@ theorem C03_finding_finished_not_error : ¬ C03_every_kind_to_error_full codeCfg
     (by decide) rfl (by decide)
   revert this; decide
 
+/-- The same when the exit is only learnt through reconciliation after a re-subscription
+    (finding finished_not_error, same class). -/
+theorem C03_finding_reconciled_finished_not_error : ¬ C03_every_kind_to_error_full codeCfg := by
+  intro h
+  have := h wRunning .RFINISHED [([0, 0], true)] [.take, .look] wRunning_live ⟨[0, 0], true, by decide, by decide⟩
+    (by decide) rfl (by decide)
+  revert this; decide
+
 /-- TASK_INTERNAL_ERROR of a critical task while the environment is CONFIGURED is ignored. -/
 theorem C03_finding_internal_error_ignored_unless_running : ¬ C03_every_kind_to_error_full codeCfg := by
   intro h
@@ -950,4 +1023,18 @@ example :
     Live s ∧ s1.dropped = 1 ∧ s1.chan = some .RUNNING ∧ validRun codeCfg s1 ls = true ∧ rootHolds codeCfg s1 ls = true ∧
     quiescent (irun codeCfg s1 ls) = true ∧ (irun codeCfg s1 ls).env.st = .ERROR := by
   refine ⟨⟨Or.inr rfl, rfl, fun i hi => by cases hi⟩, ?_⟩
+  decide
+
+/-- Non-vacuity of `C03_reconciled_critical_to_error`: the critical task of a RUNNING
+    environment is reported TASK_LOST by the reconciliation answer; a whole agent (the critical
+    and the non-critical task) is; the wall-clock schedule ends in ERROR with both stamps
+    set, the surviving RUNNING task is sent STOP. -/
+example :
+    let s1 := settle codeCfg 12 (fail codeCfg .RLOST wRunning [([0, 0], false)])
+    let s2 := settle codeCfg 12 (fail codeCfg .RAGENT wRunning [([0, 1], true), ([0, 0], true)])
+    Live wRunning ∧ Kind.RLOST.viaReconciliation = true ∧ Kind.RLOST.hard = true ∧ critLeafAt wRunning.f [0, 0] = true ∧
+    quiescent s1 = true ∧ s1.env.st = .ERROR ∧ s1.env.vars.soeor ≠ .empty ∧ s1.env.vars.eoeor ≠ .empty ∧
+    s1.stopped = [[0, 1]] ∧ roleStateAt s1.f [0, 0] = .ERROR ∧
+    quiescent s2 = true ∧ s2.env.st = .ERROR ∧ s2.stopped = [] := by
+  refine ⟨wRunning_live, ?_⟩
   decide
